@@ -504,10 +504,16 @@ def _d_items(it, v, args, kwargs, node):
             return hook(it, v, node)
         val = SymV(it.fresh('value'), 'any', origin=('value-of', v), tags=v.tags)
         return IterV(TupleV([k, val]), src=v, desc='items', length=Lin.const(len(v.value)))
+    ke = getattr(v, 'key_elem', None)
     if v.default is not None:
-        val = v.default(it, k, node, False)
-    else:
-        val = SymV(it.fresh('value'), 'any', origin=('value-of', v), tags=v.tags)
+        # each iteration sees its own key and the value configured for that key
+        def fresh(it2, v=v, ke=ke, node=node):
+            k2 = ke(it2) if ke is not None else SymV(it2.fresh('key'), 'key', origin=v)
+            return TupleV([k2, v.default(it2, k2, node, False)])
+        r = IterV(fresh(it), src=v, desc='items')
+        r.fresh = fresh
+        return r
+    val = SymV(it.fresh('value'), 'any', origin=('value-of', v), tags=v.tags)
     return IterV(TupleV([k, val]), src=v, desc='items')
 
 
@@ -888,6 +894,13 @@ def e_strptime(it, args, kwargs, node):
     return SymV(it.fresh('datetime'), 'datetime', origin=('strptime', args), tags=value_tags(v))
 
 
+def e_datetime_ctor(it, args, kwargs, node):
+    """datetime.datetime(year, month, day, ...): the components are kept for the rules"""
+    it.may_raise(ValueError, node, 'datetime()', wire=any('wire' in value_tags(a) for a in args))
+    tags = frozenset().union(*[value_tags(a) for a in args]) if args else frozenset()
+    return SymV(it.fresh('datetime'), 'datetime', origin=('datetime-ctor', list(args), dict(kwargs)), tags=tags)
+
+
 def e_fromisoformat(it, args, kwargs, node):
     v = it.resolve(args[0])
     it.may_raise(ValueError, node, 'fromisoformat', wire='wire' in value_tags(v))
@@ -1114,7 +1127,7 @@ EXT = {
     'struct.unpack': e_struct_unpack, 'struct.pack': e_struct_pack, 'struct.calcsize': e_struct_calcsize,
     'binascii.hexlify': e_hexlify, 'binascii.b2a_hex': e_hexlify,
     'binascii.unhexlify': e_unhexlify, 'binascii.a2b_hex': e_unhexlify,
-    'datetime.datetime.strptime': e_strptime, 'datetime.datetime.fromisoformat': e_fromisoformat,
+    'datetime.datetime': e_datetime_ctor, 'datetime.datetime.strptime': e_strptime, 'datetime.datetime.fromisoformat': e_fromisoformat,
     'dateutil.parser.parse': e_dateutil_parse,
     'decimal.Decimal': e_decimal, 're.match': e_re_match, 're.search': e_re_match, 're.fullmatch': e_re_match,
     'copy.deepcopy': e_deepcopy, 'io.BytesIO': e_bytesio,
